@@ -6,6 +6,7 @@ import (
 	"flag"
 	"fmt"
 	"os"
+	"runtime/pprof"
 	"sort"
 	"strings"
 	"time"
@@ -91,6 +92,11 @@ func main() {
 	jobFile := flag.String("job", "", "job JSON file")
 	outFile := flag.String("out", "", "result JSON file")
 	flag.Parse()
+	if pf := os.Getenv("GOSYM_CPUPROFILE"); pf != "" {
+		f, _ := os.Create(pf)
+		pprof.StartCPUProfile(f)
+		defer pprof.StopCPUProfile()
+	}
 	var job Job
 	data, err := os.ReadFile(*jobFile)
 	if err != nil {
